@@ -168,7 +168,7 @@ def run_spec(spec, props=("C15",)):
                     if want is None:
                         orc.ctx["held"] = (len(orc.marks), v, got, "never evaluated for its current situation", state)
                         break
-                    if abs(got - want) > TOL or ((v in nbr) and want == 0 and got != 0):
+                    if abs(got - want) > TOL * max(abs(got), abs(want)) or ((v in nbr) and want == 0 and got != 0):
                         orc.ctx["held"] = (len(orc.marks), v, got, want, state)
                         break
             finally:
@@ -231,9 +231,9 @@ def run_spec(spec, props=("C15",)):
             if R is None:
                 continue   # reported through the 'held' check
             t_after = tmin + sg.ordinal + 1
-            if abs(sg.rate - RT) > TOL * max(1.0, RT):
+            if abs(sg.rate - RT) > TOL * max(abs(sg.rate), abs(RT)):     # relative: rates of any magnitude
                 A.add(V("C15", fn, cls, "clock_rate", "state %r: waiting time drawn with rate %r, sum of user rates %r" % (st, sg.rate, RT), sg.prefix, sg.rate, RT))
-            should_end = (RT <= TOL) or (t_after >= tmax)
+            should_end = (RT <= 0) or (t_after >= tmax)
             succ = {}
             for lf, p in sg.dist.items():
                 if lf[0] == "EXC":
@@ -248,7 +248,7 @@ def run_spec(spec, props=("C15",)):
                     A.trans.add((st, lf[1]))
                     if lf[0] == "END" and p > 0 and t_after < tmax:
                         R2, RT2 = rates_for(rep, lf[1])
-                        if RT2 is not None and RT2 > TOL:
+                        if RT2 is not None and RT2 > 0:
                             A.add(V("C15", fn, cls, "ends_early", "after %r -> %r the run stops although the rates still sum to %r" % (st, lf[1], RT2), sg.prefix))
             if should_end:
                 for nxt in succ:
@@ -260,7 +260,7 @@ def run_spec(spec, props=("C15",)):
                     sym = "extra_event" if want == 0 else "probability"
                     A.add(V("C15", fn, cls, sym, "state %r -> %r with probability %.12g, rate/sum gives %.12g" % (st, nxt, p, want), sg.prefix, p, want))
             for nxt, r_ in R.items():
-                if r_ > TOL and nxt not in succ:
+                if r_ > 0 and r_ / RT > 1e-12 and nxt not in succ:
                     A.add(V("C15", fn, cls, "missing_event", "state %r: node change to %r (rate %r) never offered" % (st, nxt, r_), sg.prefix))
     for r in runs:
         pre = r.chosen()
